@@ -1831,3 +1831,11 @@ func accessorOf(f *ssa.Function) string {
 	}
 	return name
 }
+
+func leafValues(ls []phiLeaf) []ssa.Value {
+	var out []ssa.Value
+	for _, l := range ls {
+		out = append(out, l.V)
+	}
+	return out
+}
